@@ -30,11 +30,14 @@ import (
 // c11Block builds one well-formed block of total size <= 8800.
 func c11Block(r *rand.Rand, shortestOnly bool) []byte {
 	var t []byte
-	switch r.Intn(3) {
-	case 0:
+	switch r.Intn(7) {
+	case 0, 1:
 		t = []byte{byte(5 + r.Intn(2))}
-	case 1:
+	case 2, 3:
 		t = []byte{0x64}
+	case 4:
+		// five-byte type numbers (65536 .. 2^32-1, the largest the NDN packet format allows)
+		t, _ = gen.VarForm([]uint64{65536, 70000, 1<<31 - 1, 1 << 31, 1<<31 + 5, 1<<32 - 1}[r.Intn(6)], 5)
 	default:
 		t, _ = gen.VarForm(uint64(253+r.Intn(60000)), 3)
 	}
